@@ -285,9 +285,13 @@ func doSub(c *vlib.Ctx, sc scenario, id peer.ID, addrIDs []peer.ID, latest0 cid.
 	if latest0 != cid.Undef {
 		rp.Latest0 = latest0.String()
 	}
+	desc := map[string]interface{}{"scenario": sc.name, "key_type": sc.keyType, "observed": r.kind, "err": r.err, "replay": rp}
 	c.Case("sub", fmt.Sprintf("(SubCase %s %s %s %s (%s, %s) %s %d %s %s)", optPeerTerm(id), vlib.CoqList(addrTerms), coqOptCid(latest0), resp,
-		vlib.CoqList(bl), vlib.CoqBool(r.kind == "ok"), obsTerm(r.kind, okTerm, 0), r.heads, vlib.CoqList(bl), coqOptCid(r.latest)),
-		map[string]interface{}{"scenario": sc.name, "key_type": sc.keyType, "observed": r.kind, "err": r.err, "replay": rp})
+		vlib.CoqList(bl), vlib.CoqBool(r.kind == "ok"), obsTerm(r.kind, okTerm, 0), r.heads, vlib.CoqList(bl), coqOptCid(r.latest)), desc)
+	// the same observation against C03's model AND C01's model of the sync that follows
+	// (model/Compose_C03_C01.v: both_case_ok), as a one-step history on a fresh Subscriber
+	c.Case("both", fmt.Sprintf("(BothCase %s (SubHist %s %s %s [SubStep %s (%s, %s) %s %d %s %s]))", chainTerm(), optPeerTerm(id), vlib.CoqList(addrTerms), coqOptCid(latest0),
+		resp, vlib.CoqList(bl), vlib.CoqBool(r.kind == "ok"), obsTerm(r.kind, okTerm, 0), r.heads, vlib.CoqList(bl), coqOptCid(r.latest)), desc)
 	if v != nil && strings.HasPrefix(v.sigTerm, "(WSSig") {
 		c.Nontrivial(fmt.Sprintf("sub/%s/%s/%s/%v/%s", sc.keyType, sc.name, optPeerTerm(id), ids, cidStr(latest0)))
 	}
@@ -418,4 +422,13 @@ func doServeReplay(c *vlib.Ctx, kb []byte, typ, topic string, root cid.Cid) {
 	doServe(c, id, topic, root)
 	status, body := servedHead(id.Priv, topic, root)
 	fmt.Printf("  publisher %s topic=%q root=%s serves status %d body %s\n", id.ID, topic, cidStr(root), status, bytes.TrimSpace(body))
+}
+
+// chainTerm: the publisher's chain, newest first, as C01's model wants it
+func chainTerm() string {
+	t := make([]string, len(chain))
+	for i := range chain {
+		t[i] = coqCid(chain[len(chain)-1-i])
+	}
+	return vlib.CoqList(t)
 }
